@@ -176,7 +176,7 @@ theorem joinBase_groups (g : Str) (hg : segOk g = true) :
   rw [lit_groups_rel]
   have e : groupsL ++ ['/'] ++ g = groupsL ++ '/' :: g := by simp
   rw [e, urljoin_base_groups g (fun c hc => segChar_pathChar (hs.2.1 c hc)) (segOk_not_mem_semi hg)
-    (segOk_not_mem_slash hg) hs.2.2]
+    (segOk_not_mem_slash hg) hs.2.2.1]
   simp [slashed]
 
 theorem reparse_group (g : Str) (hh : groupOk g = true) :
@@ -215,14 +215,27 @@ theorem reparse_group (g : Str) (hh : groupOk g = true) :
 
 /-! ## `FacebookPhoto` of a page: `/<page>/photos/a.<album>/<id>` -/
 
-theorem segOk_album (aid : Str) (h : aid.all segChar = true) : segOk (aDot ++ aid) = true := by
+theorem segOk_album (aid : Str) (h : aid.all segChar = true) (hl : blankLast aid = false) :
+    segOk (aDot ++ aid) = true := by
   unfold segOk
   have h1 : (aDot ++ aid).isEmpty = false := rfl
   have h2 : (aDot ++ aid).all segChar = true := by
     rw [List.all_append, h]; decide
   have h3 : isDotSeg (aDot ++ aid) = false := by
     simp [isDotSeg, aDot]
-  simp [h1, h2, h3]
+  have h4 : blankHead (aDot ++ aid) = false := by
+    have : isSpace 'a' = false := by decide
+    simp [blankHead, aDot, this]
+  have h5 : blankLast (aDot ++ aid) = false := by
+    cases aid with
+    | nil => decide
+    | cons c cs =>
+      unfold blankLast at hl ⊢
+      rw [List.getLast?_append]
+      cases hx : (c :: cs).getLast? with
+      | none => simp at hx
+      | some x => rw [hx] at hl; simpa using hl
+  simp [h1, h2, h3, h4, h5]
 
 theorem albumOf_prefixed (aid : Str) : albumOf (aDot ++ aid) = aid := by
   unfold albumOf
@@ -237,14 +250,14 @@ theorem reparse_photo_path (p aid id : Str) (hh : photoPathOk p aid id = true) :
   unfold photoPathOk at hh
   rw [lit_videos_word] at hh
   simp only [Bool.and_eq_true, decide_eq_true_eq, Bool.not_eq_true'] at hh
-  obtain ⟨⟨⟨⟨⟨⟨hp, hi⟩, hane⟩, ha⟩, hwp⟩, hwi⟩, hv⟩ := hh
+  obtain ⟨⟨⟨⟨⟨⟨⟨hp, hi⟩, hane⟩, ha⟩, hal⟩, hwp⟩, hwi⟩, hv⟩ := hh
   have hok : ∀ x ∈ [p, photosL, aDot ++ aid, id], segOk x = true := by
     intro x hx
     simp only [List.mem_cons, List.not_mem_nil, or_false] at hx
     rcases hx with hx | hx | hx | hx <;> rw [hx]
     · exact hp
     · exact segOk_literals.2.1
-    · exact segOk_album aid ha
+    · exact segOk_album aid ha hal
     · exact hi
   have hpne : p ≠ [] := (segOk_spec hp).1
   have htr : truthy (some p) = true := by
@@ -303,7 +316,7 @@ theorem reparse_user (id : Str) (hh : qvalOk id = true) : Reparses (.user id non
       simp only [Parsed.url]; rw [lit_profile_q]; simp [qsWire, join, wireItem]
     rw [this, joinBase_query profilePhpL _ (by simp) hitems (by decide) (by decide) (by decide) (by decide)]
   · intro rel
-    rw [parse_canonical_query profilePhpL _ rel (by simp) hitems (by decide) (by decide), parseSplit_profile_php]
+    rw [parse_canonical_query profilePhpL _ rel (by simp) hitems (by decide) (by decide) (by decide), parseSplit_profile_php]
     unfold routeProfile
     rw [safe_parse_qs_qsWire _ (by simp) hitems, lit_id]
     simp [qsGet, qsHas, qsValues, getIdx, bind, Except.bind, pure, Except.pure]
@@ -319,7 +332,7 @@ theorem reparse_video (id : Str) (hh : qvalOk id = true) : Reparses (.video id n
       simp only [Parsed.url]; rw [lit_watch_q]; simp [qsWire, join, wireItem]
     rw [this, joinBase_query (watchL ++ ['/']) _ (by simp) hitems (by decide) (by decide) (by decide) (by decide)]
   · intro rel
-    rw [parse_canonical_query (watchL ++ ['/']) _ rel (by simp) hitems (by decide) (by decide), parseSplit_watch]
+    rw [parse_canonical_query (watchL ++ ['/']) _ rel (by simp) hitems (by decide) (by decide) (by decide), parseSplit_watch]
     unfold routeWatch
     rw [safe_parse_qs_qsWire _ (by simp) hitems, lit_v]
     simp [qsItem, qsHas, qsValues, getIdx, bind, Except.bind, pure, Except.pure]
@@ -339,7 +352,7 @@ theorem reparse_post_parent_id (pid id : Str) (hp : qvalOk pid = true) (hi : qva
       simp only [Parsed.url]; rw [lit_permalink_q, lit_and_id]; simp [qsWire, join, wireItem]
     rw [this, joinBase_query permalinkPhpL _ (by simp) hitems (by decide) (by decide) (by decide) (by decide)]
   · intro rel
-    rw [parse_canonical_query permalinkPhpL _ rel (by simp) hitems (by decide) (by decide),
+    rw [parse_canonical_query permalinkPhpL _ rel (by simp) hitems (by decide) (by decide) (by decide),
       parseSplit_permalink_php _ _ _ _ (qsWire_ne_nil _ (by simp))]
     unfold routePermalink
     rw [safe_parse_qs_qsWire _ (by simp) hitems, lit_id, lit_story]
@@ -420,7 +433,7 @@ theorem reparse_photo_query (id : Str) (gid aid : Option Str) (hh : photoQueryOk
           simp [truthy_of_qvalOk hg, truthy_of_qvalOk ha, photoItems, qsWire, join, wireItem, fmtOpt]
     rw [this, joinBase_query photoPhpL _ hne hitems (by decide) (by decide) (by decide) (by decide)]
   · intro rel
-    rw [parse_canonical_query photoPhpL _ rel hne hitems (by decide) (by decide),
+    rw [parse_canonical_query photoPhpL _ rel hne hitems (by decide) (by decide) (by decide),
       parseSplit_photo_php _ _ _ _ (qsWire_ne_nil _ hne)]
     unfold routePhotoQuery photoSets
     rw [safe_parse_qs_qsWire _ hne hitems, lit_fbid, lit_set, lit_gdot, lit_adot]
